@@ -112,7 +112,7 @@ vars == <<shape, fixes, connRec, clientIdx, clock, cst, reg, last, hb, alive, de
 \* lifetimes are kept as REMAINING ticks, so the state graph without the clock is finite and the
 \* exhaustive check covers sessions of any length; the generator keeps the clock to bound sleeps
 \* age influences nothing unless KeepCreatedAt (or the "long" generation filter) looks at it
-ageV    == IF KeepCreatedAt \/ Only \in {"long", "longre"} THEN age ELSE 0
+ageV    == IF KeepCreatedAt \/ Only \in {"long", "longre", "longs", "relong"} THEN age ELSE 0
 view    == <<shape, fixes, connRec, clientIdx, cst, reg, last, hb, alive, dev, lost, ageV, lk, lkDone, lkWrote>>
 genview == <<shape, fixes, connRec, clientIdx, clock, cst, reg, last, hb, alive, dev, lost, ageV, lk, lkDone, lkWrote>>
 
@@ -156,17 +156,25 @@ Init == /\ shape \in Shapes /\ fixes \in FixSets
 \*           more) where the store locates the client
 ConnectedP(x) == last'[x] # "-" /\ cst'[last'[x]].st = "open" /\ alive'[last'[x]]
 AllClosedP(x) == \A c \in ConnSet : cst'[c].auth = x => cst'[c].st \in {"closed", "evicted"}
+WLost(e)  == \/ e.a = "AuthLost" /\ ConnectedP(e.x)
+             \/ e.a \in {"HB", "Close", "Late"} /\ \E x \in Clients : lost'[x] /\ ConnectedP(x)
+WClose(e, foundBefore) == e.a \in {"Close", "Late"} /\ e.w # "peer" /\ e.x # "-" /\ foundBefore /\ AllClosedP(e.x)
+WLong(e)   == e.a \in {"Tick", "HB"} /\ \E x \in Clients : ConnectedP(x) /\ age'[last'[x]] >= TTL
+WLongRe(e) == e.a = "Auth" /\ cst[e.c].auth = e.x /\ age[e.c] >= TTL /\ alive[e.c]
+WReauth(e) == e.a = "Auth" /\ cst[e.c].auth = e.x
+              /\ (last[e.x] # e.c \/ ~(clientIdx[e.x].ttl > 0 /\ clientIdx[e.x].conn = e.c))
 Wanted(e, foundBefore) ==
   CASE Only = "dev"   -> \E x \in Clients : dev'[x] \ dev[x] # {}
-    [] Only = "lost"  -> \/ e.a = "AuthLost" /\ ConnectedP(e.x)
-                         \/ e.a \in {"HB", "Close", "Late"} /\ \E x \in Clients : lost'[x] /\ ConnectedP(x)
-    [] Only = "close" -> e.a \in {"Close", "Late"} /\ e.w # "peer" /\ e.x # "-" /\ foundBefore /\ AllClosedP(e.x)
+    [] Only = "lost"  -> WLost(e)
+    [] Only = "close" -> WClose(e, foundBefore)
+    [] Only = "lostclose" -> WLost(e) \/ WClose(e, foundBefore)
     [] Only = "lookup" -> e.a = "HB" /\ e.x # "-" /\ lkDone'[e.x] /\ ConnectedP(e.x) /\ last'[e.x] = e.c
-    [] Only = "long"   -> e.a \in {"Tick", "HB"} /\ \E x \in Clients : ConnectedP(x) /\ age'[last'[x]] >= TTL
-    [] Only = "longre" -> e.a = "Auth" /\ cst[e.c].auth = e.x /\ age[e.c] >= TTL /\ alive[e.c]
+    [] Only = "long"   -> WLong(e)
+    [] Only = "longre" -> WLongRe(e)
+    [] Only = "longs"  -> WLong(e) \/ WLongRe(e)
+    [] Only = "relong" -> WLong(e) \/ WLongRe(e) \/ WReauth(e)
     [] Only = "first" -> e.a = "Auth" /\ e.w = "new"
-    [] Only = "reauth" -> e.a = "Auth" /\ cst[e.c].auth = e.x
-                          /\ (last[e.x] # e.c \/ ~(clientIdx[e.x].ttl > 0 /\ clientIdx[e.x].conn = e.c))
+    [] Only = "reauth" -> WReauth(e)
     [] OTHER -> TRUE
 LogK(a, n, c, x, w, foundBefore, keepLk) ==
   LET e == [a |-> a, n |-> n, c |-> c, x |-> x, w |-> w] IN
